@@ -9,10 +9,11 @@
    differential correspondence of harness/props/c09.py.  Valuations, function bodies and the comparison are
    universally quantified oracles: "for every valuation" is literal.
 
-   FULL: C09_permitted_spec ... C09_author_answers_unrestricted, C09_ordered_list_credit_implies_permitted,
+   FULL: sections 1-6 (except the report of section 4), C09_ordered_list_credit_implies_permitted,
          C09_sum_credit_implies_permitted, C09_sum_limit_names_never_graded.
    PARTIAL (with what is missing) and REFUTED (witnesses in the faithful model, reproduced on the real code by the
-   harness): the three groups at the end. *)
+   harness on every run): how an undefined name is reported (section 4), ordered lists (section 7), SumGrader's
+   summand over an empty range and the author's own fields (section 8). *)
 From Coq Require Import ZArith QArith List Bool.
 From Verif.Model Require Import Result Lexer Parser Eval RestrictBase Restrict.
 From Verif.Gen Require Restrict.
